@@ -126,7 +126,7 @@ func checkTokens(c Case, l *layout, toks []parser.LexToken) *hx.Failure {
 	ti, ci := 0, 0
 	for _, t := range toks {
 		if t.ID == parser.TokenEOF {
-			if !eofPlaceOK(l, endAnchor(c.Pieces, l), t.Lline, t.Lpos) {
+			if !hx.KnownOpen(findEOF) && !eofPlaceOK(l, endAnchor(c.Pieces, l), t.Lline, t.Lpos) {
 				return hx.Failf("eof-position:token", "source %s: the end-of-input token says %s; that is no line/column between the last lexical element (offset %d) and the end of the text (offset %d = line %d, column %d)", clip(l.src), tokDesc(t), endAnchor(c.Pieces, l), len(l.src), l.lineAt[len(l.src)], l.colAt[len(l.src)])
 			}
 			continue
@@ -322,7 +322,7 @@ func cmpParse(a1 *parser.ASTNode, e1 error, a2 *parser.ASTNode, e2 error, withCo
 		if !errors.As(e1, &p1) || !errors.As(e2, &p2) {
 			return ""
 		}
-		if p1.Type == p2.Type && p1.Type == parser.ErrUnexpectedEnd {
+		if p1.Type == p2.Type && p1.Type == parser.ErrUnexpectedEnd && p1.Detail == "" && p2.Detail == "" {
 			// where the end of the input is reported is only loosely specified (see eofPlaceOK);
 			// a trailing comment may legitimately move it
 			return ""
@@ -428,6 +428,14 @@ func runCase(c Case) *hx.Failure {
 		hx.E.Exclude("malformed-case.plant")
 		return nil
 	}
+	if hx.KnownOpen(findLC) && lcShape(c.Pieces) {
+		hx.E.Exclude("known." + findLC)
+		return nil
+	}
+	if hx.KnownOpen(findEOF) && c.Plant == "eof" {
+		hx.E.Exclude("known." + findEOF)
+		return nil
+	}
 	l := assemble(c.Pieces)
 	nontrivial, classes := followClasses(c.Pieces, l)
 	classes = append(classes, "mode."+c.Mode)
@@ -509,6 +517,21 @@ func runProg(c Case, l *layout, blank string) *hx.Failure {
 			hx.E.Exclude("unspecified.planted-token-accepted")
 			return nil
 		}
+		if c.Plant == "lexerr" && pe.Type != parser.ErrLexicalError {
+			hx.E.Exclude("unspecified.error-about-other-token")
+			return nil
+		}
+		if c.Plant == "stray" {
+			// the error must be about the planted token (its text is part of the message)
+			want := p.T
+			if p.K == kKW {
+				want = "<" + strings.ToUpper(p.T) + ">"
+			}
+			if !strings.Contains(pe.Detail, want) {
+				hx.E.Exclude("unspecified.error-about-other-token")
+				return nil
+			}
+		}
 		okPos := pe.Line == l.lineAt[off] && pe.Pos == l.colAt[off]
 		if !okPos && p.K == kBAD && badKind(p.T) == "unclosed-bc" {
 			okPos = pe.Line == l.lineAt[off+2] && pe.Pos == l.colAt[off+2]
@@ -583,11 +606,18 @@ func runEval(c Case, l *layout) *hx.Failure {
 		hx.E.Exclude("unspecified.other-runtime-error")
 		return nil
 	}
-	if tp != off {
-		return hx.Failf("runtime-error-position:other-token", "source %s: ill-typed operand %q planted at offset %d (line %d, column %d) but the error %q is attached to offset %d", clip(l.src), p.T, off, l.lineAt[off], l.colAt[off], err.Error(), tp)
+	if tp == off {
+		hx.E.Class("planted.runtime.checked(at-operand)", 1)
+		return nil
 	}
-	hx.E.Class("planted.runtime.checked", 1)
-	return nil
+	// attached to another token (say the operator): fine as long as it is a real token start (oracle 1 covered it)
+	for i, q := range c.Pieces {
+		if l.off[i] == tp && isTok(q.K) {
+			hx.E.Class("planted.runtime.checked(at-other-token)", 1)
+			return nil
+		}
+	}
+	return hx.Failf("runtime-error-position:no-token-start", "source %s: ill-typed operand %q planted at offset %d (line %d, column %d); the error %q is attached to offset %d where no token starts", clip(l.src), p.T, off, l.lineAt[off], l.colAt[off], err.Error(), tp)
 }
 
 // runRaw checks arbitrary bytes: every token must be consistent with its own Pos
@@ -599,20 +629,48 @@ func runRaw(c Case) *hx.Failure {
 	if f != nil {
 		return f
 	}
-	var n, ncom, nerr int
 	multiline := strings.IndexByte(src, '\n') >= 0
+	// offsets of the newlines which end a # comment (by the lexer's own account; used to name the failure class only)
+	lcEnd := map[int]bool{}
+	for _, t := range toks {
+		if t.ID == parser.TokenPOSTCOMMENT && strings.HasSuffix(t.Val, "\n") {
+			lcEnd[t.Pos+len(t.Val)-1] = true
+		}
+	}
+	fail := func(sig, format string, a ...interface{}) *hx.Failure {
+		hx.E.Case(multiline, "raw|"+src, "mode.raw")
+		return hx.Failf(sig, format, a...)
+	}
+	var n, ncom, nerr int
 	for _, t := range toks {
 		if t.ID == parser.TokenEOF {
+			if hx.KnownOpen(findEOF) || t.Lline == 0 {
+				continue
+			}
+			// weakest form: the reported place exists in the text
+			ok := false
+			for o := 0; o <= len(src) && !ok; o++ {
+				ok = lineAt[o] == t.Lline && colAt[o] == t.Lpos
+			}
+			if !ok {
+				return fail("eof-position:raw-token", "source %s: the end-of-input token says %s; the text has no such line/column", clip(src), tokDesc(t))
+			}
 			continue
 		}
 		n++
 		if what, ok := selfConsistent(t, lineAt, colAt); !ok {
-			hx.E.Case(multiline, "raw|"+src, "mode.raw")
-			d := ""
+			d, ctx := "", ""
 			if t.Pos >= 0 && t.Pos < len(lineAt) {
 				d = fmt.Sprintf(": offset %d is line %d column %d", t.Pos, lineAt[t.Pos], colAt[t.Pos])
+				if i := strings.LastIndexByte(src[:t.Pos], '\n'); i >= 0 && lcEnd[i] {
+					ctx = ":nl-in-lc"
+					if hx.KnownOpen(findLC) {
+						hx.E.Class("known."+findLC+".token-skipped", 1)
+						continue
+					}
+				}
 			}
-			return hx.Failf("raw-token-"+what, "source %s: token %s%s", clip(src), tokDesc(t), d)
+			return fail("raw-token-"+what+ctx, "source %s: token %s%s", clip(src), tokDesc(t), d)
 		}
 		rest := src[t.Pos:]
 		ok := true
@@ -633,11 +691,10 @@ func runRaw(c Case) *hx.Failure {
 			}
 		}
 		if !ok {
-			hx.E.Case(multiline, "raw|"+src, "mode.raw")
-			return hx.Failf("raw-lexeme-not-at-pos", "source %s: token %s but the input at offset %d reads %s", clip(src), tokDesc(t), t.Pos, clip(rest))
+			return fail("raw-lexeme-not-at-pos", "source %s: token %s but the input at offset %d reads %s", clip(src), tokDesc(t), t.Pos, clip(rest))
 		}
 	}
-	// non-trivial (raw): a comment and a newline and at least two tokens
+	// non-trivial (raw): a comment, a newline and at least one other token
 	nt := multiline && ncom > 0 && n > ncom
 	cls := []string{"mode.raw"}
 	if nerr > 0 {
@@ -707,9 +764,15 @@ func TestExhaustive(t *testing.T) {
 
 func TestProp(t *testing.T) {
 	hx.Check(t, func(rt *rapid.T) Case {
+		var c Case
 		if rapid.IntRange(0, 9).Draw(rt, "mode") < 4 {
-			return Case{Mode: "soup", Pieces: drawSoup(rt)}
+			c = Case{Mode: "soup", Pieces: drawSoup(rt)}
+		} else {
+			c = drawProg(rt)
 		}
-		return drawProg(rt)
+		if hx.KnownOpen(findLC) && avoidLCShape(c.Pieces) {
+			hx.E.Exclude("known." + findLC + "(shape avoided by construction)")
+		}
+		return c
 	}, runCase)
 }
